@@ -74,10 +74,12 @@ theorem injFile_presI {P : Nat → Side → Prop} (hP : ∀ k, SidePreserved (P 
     · exact ⟨_, _, rfl, h, hp⟩
     · split
       · exact ⟨_, _, rfl, h, hp⟩
-      · obtain ⟨st', hst', hok, hpp⟩ := injWriteFile_presI hP fileName (dispatch fileName fileExtension extWithOption).2.2
-          (dispatch fileName fileExtension extWithOption).1 (dispatch fileName fileExtension extWithOption).2.1 data hname 4 st h hp
-        rw [hst']
-        exact ⟨_, _, rfl, hok, hpp⟩
+      · split
+        · exact ⟨_, _, rfl, h, hp⟩
+        · obtain ⟨st', hst', hok, hpp⟩ := injWriteFile_presI hP fileName (dispatch fileName fileExtension extWithOption).2.2
+            (dispatch fileName fileExtension extWithOption).1 (dispatch fileName fileExtension extWithOption).2.1 data hname 4 st h hp
+          rw [hst']
+          exact ⟨_, _, rfl, hok, hpp⟩
 
 theorem injLoop_presI {P : Nat → Side → Prop} (hP : ∀ k, SidePreserved (P k)) (w : Tape.World) : ∀ (srcs : List Str) (st : Inj),
     (∀ src ∈ srcs, CleanSrc src) → ImgOk st.img → ImgAllI P st.img →
@@ -144,7 +146,7 @@ theorem setBat_byte0 (sd : Side) (bat : List Nat) (hw : C11.WFSide sd) (hb : bat
 theorem byte0_preserved : SidePreserved Byte0 := by
   intro sd bat own inv h0 content name ext kind flag hname
   unfold Byte0 at h0 ⊢
-  rw [writeFile_unfold sd bat content name ext kind flag inv.hbat]
+  rw [writeFile_unfold sd bat content name ext kind flag inv.hbat inv.not_free40.1 inv.not_free40.2]
   by_cases hfit : (chosen bat (reqBlocks content.length)).length < reqBlocks content.length
   · rw [if_pos hfit]; exact h0
   · rw [if_neg hfit]
